@@ -4086,7 +4086,7 @@ Theorem handler_never_in_lock_holder n calls cs :
 Proof.
   cbv zeta. destruct (cinv_run n calls cs) as [Hs Hw]. rewrite Forall_forall in Hw. split; [lia|]. split.
   - intros x Hx Hh. specialize (Hw x Hx). unfold cwf in Hw.
-    destruct (c_pc x); destruct Hw as [a b]; try destruct b as [b c]; congruence.
+    destruct (c_pc x); intuition congruence.
   - intros x Hx Hp. specialize (Hw x Hx). unfold cwf in Hw. rewrite Hp in Hw. tauto.
 Qed.
 
